@@ -13,7 +13,8 @@ def arithF : Arith Float :=
     neg := fun x => -x, add := (· + ·), sub := (· - ·), mul := (· * ·), div := (· / ·),
     lt := fun a b => a < b, le := fun a b => a ≤ b, beq := fun a b => a == b,
     equal := GenF.Equal,
-    trunc := fun x => Float.ofInt (x.toInt64.toInt) }
+    trunc := fun x => Float.ofInt (x.toInt64.toInt),
+    sqrt2 := 1.4142135623730951, c1001 := 1.001, fmax := goMax }
 
 def decodeF (x : Float) : Nat × Int :=
   let b := x.toBits.toNat % 2 ^ 63
@@ -43,6 +44,9 @@ def opsF : Ops Float :=
     reflectXAbout := GenF.Matrix.ReflectXAbout, reflectYAbout := GenF.Matrix.ReflectYAbout,
     scaleAbout := GenF.Matrix.ScaleAbout, shearAbout := GenF.Matrix.ShearAbout,
     rectTransform := GenF.Rect.Transform, rectAdd := GenF.Rect.Add,
+    -- identities used by the harness: cappers 0 Butt 1 Round 2 Square; joiners 0 Miter(4) 1 Bevel 2 Round 3 Arcs(4) 4 MiterClip(4)
+    isSquareCap := fun k => k == 2,
+    joinLimit := fun k => if k == 0 || k == 3 || k == 4 then some 4.0 else none,
     checkDash := checkDashImpl arithF fmodF }
 
 inductive Cmd
